@@ -111,12 +111,12 @@ Definition ex_tr : list ev :=
    ECloseCall].
 
 Definition ex_states (rc : bool) (l : list attempt) (tr : list ev) : list st :=
-  match model_accepts rc l tr with inr ss => ss | inl _ => [] end.
+  match model_accepts_strict rc l tr with inr ss => ss | inl _ => [] end.
 
 Lemma ex_states_reach rc l tr s : In s (ex_states rc l tr) -> reach rc (sc_of l) s.
 Proof.
-  unfold ex_states. destruct (model_accepts rc l tr) as [i|ss] eqn:E; [intros []|].
-  intros H. exists tr. unfold model_accepts in E.
+  unfold ex_states. destruct (model_accepts_strict rc l tr) as [i|ss] eqn:E; [intros []|].
+  intros H. exists tr. unfold model_accepts_strict in E.
   eapply accepts_sound with (leqb := ev_beq); [|exact E|exact H].
   intros a b Eb. apply internal_ev_dec_bl. exact Eb.
 Qed.
@@ -349,4 +349,34 @@ Qed.
 Example ex_k_after_rejects_delivery_by_later_subscribe :
   k_after true [ESubCall; EFactory 0; EDisc; ECloseCall; ESubRet RCanceled; ECloseRet false;
                 ESubCall; EFactory 1; EImplSub 1; ERecv 1 0; EConn] = Some 10.
+Proof. vm_compute. reflexivity. Qed.
+
+(** * DEFECT C18_1: at_most_one_after_close fails on the code as it is now *)
+
+Definition kf1_l : list attempt :=
+  [ {| a_init := true; a_sub := true; a_items := [IMsg 1; IEof] |};
+    {| a_init := true; a_sub := true; a_items := [IMsg 1; IMsg 1; IMsg 1; IEof] |} ].
+
+(** recorded from the unchanged code (corpus/C18/kf1_close_during_second_connect.json) *)
+Definition kf1_tr : list ev :=
+  [ESubCall; EFactory 0; EImplSub 0; ERecv 0 0; EConn; EUpd 0 0 0; ERecv 0 1; ESubRet RNil;
+   ESubCall; EFactory 1; ECloseCall; EImplClose 0; ECloseRet true; EImplSub 1; EImplClose 0;
+   ERecv 1 0; EConn; EUpd 1 0 0; ERecv 1 1; EUpd 1 1 0; ERecv 1 2; EUpd 1 2 0; ERecv 1 3;
+   ESubRet RNil].
+
+(** A bare client that already served one Subscribe: Close arrives while the
+    second Subscribe is connecting, returns nil, and three whole messages are
+    delivered afterwards.  The trace is one of the model of the code as it is
+    now, lies in known-finding class 1, and fails the tag-5 monitor. *)
+Theorem at_most_one_after_close_refuted :
+  exists s, run (step_now false (sc_of kf1_l)) init kf1_tr s /\
+            k_after false kf1_tr = Some 19 /\ known_class false kf1_l kf1_tr = 1%N.
+Proof.
+  destruct (model_accepts false kf1_l kf1_tr) as [i|ss] eqn:E; [vm_compute in E; discriminate|].
+  destruct (model_accepts_sound _ _ _ _ E) as [s Hs]. exists s.
+  split; [exact Hs|]. split; vm_compute; reflexivity.
+Qed.
+
+(** ... and it is not a trace of [step], about which the theorems speak *)
+Example kf1_outside_step : model_accepts_strict false kf1_l kf1_tr = inl 10.
 Proof. vm_compute. reflexivity. Qed.
